@@ -142,6 +142,7 @@ template <class T> static void ortho_p(pbt::Ctx& c) {
 	const int xc = gen_interval(c, l, r), yc = gen_interval(c, b, t);
 	int dc = -1;
 	if (v < 9) dc = gen_depth(c, n, f);
+	if (c.draw(4) == 0) { const T sc = (T)std::ldexp(1.0, (int)c.range(-36, 16)); l *= sc; r *= sc; b *= sc; t *= sc; if (v < 9) { n *= sc; f *= sc; } c.cls("volume scaled by 2^k"); }
 	const char* name = v < 9 ? ORTHO_N[v] : "ortho2D";
 	c.cls(name); c.cls(IVX_NAME[xc]); c.cls(IVY_NAME[yc]); if (dc >= 0) c.cls(DP_NAME[dc]);
 	const std::string a = v < 9 ? args<T>({l, r, b, t, n, f}) : args<T>({l, r, b, t});
@@ -166,6 +167,9 @@ template <class T> static void frustum_p(pbt::Ctx& c) {
 	const int v = (int)c.draw(9);
 	T l, r, b, t, n, f;
 	const int xc = gen_interval(c, l, r), yc = gen_interval(c, b, t), dc = gen_depth(c, n, f);
+	// every fourth case: the whole volume scaled exactly by 2^k (k in [-36, 16]). The statement quantifies over all finite volumes; the
+	// corner mapping is scale invariant, so absolute thresholds inside a builder only show on very small or very large volumes
+	if (c.draw(4) == 0) { const T sc = (T)std::ldexp(1.0, (int)c.range(-36, 16)); l *= sc; r *= sc; b *= sc; t *= sc; n *= sc; f *= sc; c.cls("volume scaled by 2^k"); }
 	const char* name = FRUSTUM_N[v];
 	c.cls(name); c.cls(IVX_NAME[xc]); c.cls(IVY_NAME[yc]); c.cls(DP_NAME[dc]);
 	const std::string a = args<T>({l, r, b, t, n, f});
